@@ -15,8 +15,8 @@ func VerifC12_Project() {
 	w := vInit()
 	names := []string{"p0", "p1", "p2", "p3"}
 	var deps [][2]int // i depends on k
-	pendingShape := false
-	switch verifChooseK("shape", 5) {
+	pendingShape, manualShape := false, false
+	switch verifChooseK("shape", 6) {
 	case 0:
 		verifShape("chain")
 		deps = [][2]int{{1, 0}, {2, 1}}
@@ -34,6 +34,12 @@ func VerifC12_Project() {
 		verifShape("pending.dependent")
 		deps = [][2]int{{1, 0}}
 		pendingShape = true
+	case 5:
+		// p1 is disabled in the configuration and started by hand once p0 runs: it is a
+		// running dependent of p0 like any other
+		verifShape("hand.started.dependent")
+		deps = [][2]int{{1, 0}}
+		manualShape = true
 	}
 	n := 3
 	if len(deps) == 4 {
@@ -83,10 +89,17 @@ func VerifC12_Project() {
 		stopsSeen[name] = true
 		mu.Unlock()
 	}
+	if manualShape {
+		confs[1].Disabled = true
+	}
 	r := vRunner(vProject(confs...), true)
 	runDone := make(chan error, 1)
 	go func() { runDone <- r.Run() }()
 	verifQuiesce() // everything launched, the completed ones are done
+	if manualShape {
+		_ = r.StartProcess(names[1])
+		verifQuiesce()
+	}
 	for i := 0; i < n; i++ {
 		runningAtShutdown[names[i]] = vGet(w.alive, names[i]) > 0
 	}
